@@ -356,7 +356,7 @@ pub fn run(ctx: &mut Ctx) {
     let n = ctx.share(ctx.tier.pick(12_000, 200_000));
     ctx.run_leg::<PyAcgtLoop>(n, false, 500);
 
-    let nc = ctx.share(ctx.tier.pick(800, 12_000));
+    let nc = ctx.share(ctx.tier.pick(2_400, 40_000));
     ctx.run_leg::<Cold>(nc, false, 40);
     super::coldstart::infra_inconclusive(ctx);
 
